@@ -145,6 +145,8 @@ pub fn generic_arg_alphabet(params: ParamForm) -> Vec<Vec<Ty>> {
         Ty::Named(G_M, vec![]),
         Ty::Vec(b(U8)),
         Ty::Named(G_H, vec![U8]),
+        // a compact type as the argument: `W<Compact<u32>>` next to `W<u8>`
+        Ty::Compact(b(U32)),
     ];
     match params {
         ParamForm::BitsSO => vec![
